@@ -238,6 +238,59 @@ def install(it):
         st.rem = rest
         st.last_read = None
 
+    @reg('havoc_elem')
+    def havoc_elem(it, args, kw):
+        """loop havoc of a command-set element value: msg.command_set[<keyword>].value := fresh"""
+        from .dsmodel import COMMAND_KEYWORDS
+        from .pack import fresh_value
+        msg, keyword, desc = args
+        cs = msg.fields['command_set']
+        e = it.dict_get(cs.fields['_elems'], COMMAND_KEYWORDS[keyword], None)
+        if e is None:
+            raise Unsupported('havoc_elem: message has no %s element' % keyword)
+        e.fields['value'] = fresh_value(it, keyword, desc)
+
+    @reg('havoc_attr')
+    def havoc_attr(it, args, kw):
+        from .pack import fresh_value
+        o, name, desc = args
+        o.fields[name] = fresh_value(it, name, desc)
+
+    @reg('new_decoded_dataset')
+    def new_decoded_dataset(it, args, kw):
+        h = it.hooks.get('harness')
+        if h is None:
+            raise Unsupported('decoded data set without a service harness')
+        it.p.counter += 1
+        return h.new_decoded('decoded!%d' % it.p.counter)
+
+    ENCDS = z3.Function('encoded_dataset', smt.Int, smt.Bytes)
+
+    @reg('encoded_dataset')
+    def encoded_dataset(it, args, kw):
+        """dsutils.encode: a deterministic function of the data set; data sets handed out by the
+        application oracle are integer handles, anything else gets a fresh byte string per object"""
+        ds = args[0]
+        if is_intlike(ds):
+            return ENCDS(int_term(ds))
+        cache = it.p.ghost.setdefault('_encoded', {})
+        if id(ds) not in cache:
+            cache[id(ds)] = (ds, it.p.fresh_bytes('encoded_ds'))
+        return cache[id(ds)][1]
+
+    @reg('loop_havoc_sent')
+    def loop_havoc_sent(it, args, kw):
+        """sends inside a havoc'd loop are not counted by the `answered` clause (conservative)"""
+        return None
+
+    @reg('ghost_get')
+    def ghost_get(it, args, kw):
+        return it.p.ghost.get(args[0], args[1] if len(args) > 1 else None)
+
+    @reg('ghost_set')
+    def ghost_set(it, args, kw):
+        it.p.ghost[args[0]] = args[1]
+
     @reg('empty_seq')
     def empty_seq(it, args, kw):
         elem = args[0]
